@@ -1509,6 +1509,9 @@ def rule_atom(env, shared):
             if op == "store" and role == "pos":
                 info = own.info or {}
                 is_exit = info.get("name") == "early_exit" and norm_path(info.get("trait")) == R.T_ATOMIC
+                if not is_exit:
+                    from r_state import is_exit_fn
+                    is_exit = is_exit_fn(env, own)
                 rk = receiver_kind(own, F)
                 k2 = "ATOM.b|%s|store(pos)" % env.fname(own)
                 if is_exit:
